@@ -245,11 +245,23 @@ pub fn vx_sort(a: &mut Vec<VxH>)
     ensures sorted_seq(final(a)@), final(a)@.to_multiset() == old(a)@.to_multiset(),
 { a.sort_unstable() }
 
-/// R-outline: `P > ITEM` on two handles (derived PartialOrd)
+/// R-outline: `P > ITEM` (and >=, <, <=) on two handles (derived PartialOrd)
 #[verifier::external_body]
 pub fn vx_gt(a: VxH, b: VxH) -> (r: bool)
     ensures r == (hk(a) > hk(b)),
 { a > b }
+#[verifier::external_body]
+pub fn vx_ge(a: VxH, b: VxH) -> (r: bool)
+    ensures r == (hk(a) >= hk(b)),
+{ a >= b }
+#[verifier::external_body]
+pub fn vx_lt(a: VxH, b: VxH) -> (r: bool)
+    ensures r == (hk(a) < hk(b)),
+{ a < b }
+#[verifier::external_body]
+pub fn vx_le(a: VxH, b: VxH) -> (r: bool)
+    ensures r == (hk(a) <= hk(b)),
+{ a <= b }
 
 /// R-outline: `A.iter().zip(B.iter()).all(|(x, y)| x == y)`
 #[verifier::external_body]
@@ -277,8 +289,8 @@ pub fn vx_clone(a: &Vec<VxH>) -> (r: Vec<VxH>)
 
 UNION_PRE = '''proof {
                             let orig = old(self).array@;
-                            assert(self.array@.subrange(offset as int, origlen as int) =~= orig.subrange(offset as int, origlen as int));
-                            lemma_sorted_sub(orig, offset as int, origlen as int);
+                            assert(self.array@.subrange(offset as int, vx_n as int) =~= orig.subrange(offset as int, vx_n as int));
+                            lemma_sorted_sub(orig, offset as int, vx_n as int);
                         }'''
 
 UNION_STEP = '''proof {
@@ -287,7 +299,7 @@ UNION_STEP = '''proof {
                     lemma_mem_push(ot.take(i), item);
                     lemma_mem_push(vx_pre, item);
                     assert(self.array@ == vx_pre || self.array@ == vx_pre.push(item));
-                    assert(forall|j: int| 0 <= j < origlen ==> self.array@.take(origlen as int)[j] == self.array@[j]);
+                    assert(forall|j: int| 0 <= j < vx_n ==> self.array@.take(vx_n as int)[j] == self.array@[j]);
                     if self.array@ == vx_pre {
                         // the item was found: it is a member already
                         assert(vx_pre.contains(item));
@@ -297,7 +309,7 @@ UNION_STEP = '''proof {
                             if ot.take(i).contains(item) { let w = choose|w: int| 0 <= w < i && ot.take(i)[w] == item; assert(ot[w] == ot[i]); }
                         }
                         if self.sorted && other.sorted {
-                            assert forall|j: int| 0 <= j < origlen implies orig[j] != item by {
+                            assert forall|j: int| 0 <= j < vx_n implies orig[j] != item by {
                                 lemma_key_eq(orig[j], item);
                                 if i > 0 { assert(ot[i - 1] != ot[i]); lemma_key_eq(ot[i - 1], ot[i]); }
                             }
@@ -312,6 +324,10 @@ COMMON = [
     ('R-instantiate', r'T::FullHandleType', 'VxH', 'opt'),
     ('R-cow', r'\.to_mut\(\)', '', 'opt'),
 ]
+
+
+def CMP_OUTLINE(m):
+    return {'>': 'vx_gt', '>=': 'vx_ge', '<': 'vx_lt', '<=': 'vx_le'}[m.group(2)] + '(%s, %s)' % (m.group(1), m.group(3))
 
 
 def F(name, **kw):
@@ -368,7 +384,7 @@ def build():
         F('from_iter', ret='r',
           sig_rewrites=[('R-instantiate', r"iter: impl Iterator<Item = T::FullHandleType>,\s*store: &'store AnnotationStore,", 'iter: Vec<VxH>,')],
           rewrites=[('R-forname', r'for item in iter \{', 'for item in vx_it: iter {'),
-                    ('R-outline', r'if p > item \{', 'if vx_gt(p, item) {'),
+                    ('R-outline', r'\b(p|item) (>=|<=|>|<) (p|item)\b', CMP_OUTLINE),
                     ('R-cow', r'Cow::Owned\(v\)', 'v'),
                     ('R-field', r'(?m)^\s*store,\n', '')],
           loops={0: dict(invariant=[('copy', 'v@ == iter@.take(vx_it.index@ as int)'),
@@ -377,9 +393,10 @@ def build():
           after=[('prev = Some(item);', 'proof { let i = vx_it.index@ as int; assert(iter@.take(i + 1) =~= iter@.take(i).push(item)); lemma_sorted_push(iter@.take(i), item); if i > 0 { assert(iter@.take(i).last() == iter@[i - 1]); } }')],
           ensures=[('array', 'r.array@ == iter@'), ('flag_exact', 'r.sorted <==> sorted_seq(iter@)'), ('wf', 'r.wf()')]),
         F('union', requires=[('wf', 'old(self).wf() && other.wf()')],
+          prologue='let ghost vx_n: usize = self.array@.len() as usize;',
           rewrites=[('R-outline', r'other\.iter\(\)\.next\(\)\.unwrap\(\)', 'other.array[0]'),
                     ('R-forname', r'for item in other\.iter\(\) \{', 'for vx_h in vx_it: other.array.iter() { let item = *vx_h; let ghost vx_pre = self.array@;'),
-                    ('R-outline', r'self\.array\[offset\.\.origlen\]\.binary_search\(&item\)', 'vx_binary_search_range(&self.array, offset, origlen, &item)'),
+                    ('R-outline', r'self\.array\[offset\.\.(\w*)\]\.binary_search\(&item\)', lambda m: 'vx_binary_search_range(&self.array, offset, %s, &item)' % (m.group(1) or 'self.array.len()')),
                     ('R-outline', r'self\.array\.contains\(&item\)', 'vx_slice_contains(&self.array, &item)', 'opt'),
                     ('R-outline', r'self\.array\.sort_unstable\(\);', 'vx_sort(&mut self.array);')],
           before=[(r're:match vx_binary_search_range\(', UNION_PRE, None, 'fast_path'),
@@ -388,8 +405,9 @@ def build():
           loops={r'vx_it: other\.array': dict(invariant=[
               ('wf_in', 'old(self).wf() && other.wf()'),
               ('flag', 'self.sorted == old(self).sorted'),
-              ('orig', 'origlen == old(self).array@.len() && self.array@.len() >= origlen && self.array@.take(origlen as int) =~= old(self).array@'),
-              ('offset', 'offset <= origlen'),
+              ('orig', 'vx_n == old(self).array@.len() && self.array@.len() >= vx_n && self.array@.take(vx_n as int) =~= old(self).array@'),
+              ('offset', 'offset <= vx_n'),
+              ('origlen', 'origlen == vx_n', 'origlen'),
               ('fast', 'self.sorted && other.sorted && offset > 0 ==> vx_it.index@ > 0 && forall|j: int| 0 <= j < offset ==> hk(#[trigger] old(self).array@[j]) <= hk(other.array@[vx_it.index@ - 1])'),
               ('member', 'forall|h: VxH| #[trigger] self.array@.contains(h) <==> old(self).array@.contains(h) || other.array@.take(vx_it.index@ as int).contains(h)'),
               ('no_duplicates', 'no_dups(old(self).array@) && no_dups(other.array@) ==> no_dups(self.array@)'),
